@@ -164,20 +164,23 @@ func c20Pump(c *Ctx, run *ev.Run) {
 		Results   int    `json:"results"`
 		ErrEvery  int    `json:"err_every"`
 		FailWrite int    `json:"fail_write"`
+		URLs      int    `json:"urls"`
 	}
-	cmds := []cmdT{{"pump", 100, 0, 0}, {"pump", 5000, 3, 0}, {"pump", 30000, 7, 0}, {"pump", 1, 1, 0},
+	// with as many label sets as results every observation creates new series, which makes observing
+	// much slower than handing results over: the pump must still observe every one of them
+	cmds := []cmdT{{"pump", 100, 0, 0, 0}, {"pump", 5000, 3, 0, 0}, {"pump", 30000, 7, 0, 0}, {"pump", 1, 1, 0, 0}, {"pump", 40000, 5, 0, 40000}, {"pump", 12000, 0, 0, 12000},
 		// the output starts failing at some write: every result the pump took before giving up was observed
-		{"pump", 50, 4, 3}, {"pump", 50, 0, 9}, {"pump", 400, 5, 120}, {"pump", 10, 1, 1}}
+		{"pump", 50, 4, 3, 0}, {"pump", 50, 0, 9, 0}, {"pump", 400, 5, 120, 0}, {"pump", 10, 1, 1, 0}}
 	if !c.Quick() {
-		cmds = append(cmds, cmdT{"pump", 200000, 2, 0}, cmdT{"pump", 60000, 0, 0}, cmdT{"pump", 1025, 5, 0}, cmdT{"pump", 2049, 1, 0})
+		cmds = append(cmds, cmdT{"pump", 200000, 2, 0, 0}, cmdT{"pump", 60000, 0, 0, 0}, cmdT{"pump", 1025, 5, 0, 0}, cmdT{"pump", 2049, 1, 0, 0}, cmdT{"pump", 150000, 3, 0, 150000})
 		for k := 1; k <= 40; k++ {
-			cmds = append(cmds, cmdT{"pump", 60, 3, k})
+			cmds = append(cmds, cmdT{"pump", 60, 3, k, 0})
 		}
 	}
 	in, out := filepath.Join(dir, "in"), filepath.Join(dir, "out")
 	var sb bytes.Buffer
 	for _, cm := range cmds {
-		fmt.Fprintf(&sb, `{"op":%q,"results":%d,"err_every":%d,"fail_write":%d}`+"\n", cm.Op, cm.Results, cm.ErrEvery, cm.FailWrite)
+		fmt.Fprintf(&sb, `{"op":%q,"results":%d,"err_every":%d,"fail_write":%d,"urls":%d}`+"\n", cm.Op, cm.Results, cm.ErrEvery, cm.FailWrite, cm.URLs)
 	}
 	_ = os.WriteFile(in, sb.Bytes(), 0o644)
 	ex := exec.Command(c.Bin("probe.test"), "-test.run", "^TestVerifProbe$", "-test.count=1")
